@@ -465,6 +465,58 @@ def gen_package(rng, size=None, simple=False, unicode=None, cli=None, nfiles=Non
 
 
 # ---------------------------------------------------------------- the separate streams
+# plausible English target / namespace names (colours first: the generated main has a colour table)
+ENGLISH_NAMES = ["Black", "Red", "Green", "Yellow", "Blue", "Magenta", "Cyan", "White", "BrightBlack", "BrightRed", "BrightGreen",
+                 "BrightYellow", "BrightBlue", "BrightMagenta", "BrightCyan", "BrightWhite", "Color", "Colors", "Reset",
+                 "Build", "Test", "List", "Args", "Log", "Logger", "Help", "Run", "Clean", "Install", "Deploy", "Release", "Lint", "Fmt",
+                 "Vet", "Generate", "Docs", "Check", "All", "Dev", "Watch", "Up", "Down", "Start", "Stop", "Exit", "Fatal", "Error",
+                 "Errors", "Context", "Target", "Targets", "Keys", "Name", "Usage", "Flag", "Time", "Os", "Signal", "Strconv", "Syscall",
+                 "Sort", "Strings", "Filepath", "Ioutil", "Tabwriter", "Code", "Env", "Val", "Ok", "Err", "Ctx", "Cancel", "Expected"]
+GO_KEYWORDS = ["break", "case", "chan", "const", "continue", "default", "defer", "else", "fallthrough", "for", "func", "go", "goto", "if",
+               "import", "interface", "map", "package", "range", "return", "select", "struct", "switch", "type", "var"]
+
+
+def gen_named(rng, fnames, nsnames, helper_names=()):
+    """a package whose targets / namespace types / helper identifiers carry the given names"""
+    pkg = {"nfiles": 1, "pkgdoc": None, "types": [], "funcs": [], "vars": [], "helpers": []}
+    _UNI_PARAMS[0] = False
+    for n in fnames:
+        f = gen_func(rng, n, None, None)
+        f["params"] = [g for g in f["params"] if g["ty"] in ("string", "int", "bool")]
+        f["file"] = 0
+        pkg["funcs"].append(f)
+    for n in nsnames:
+        pkg["types"].append({"name": n, "kind": "ns", "file": 0, "group": None, "qual": "mg"})
+        for m in rng.sample([x for x in list(fnames) + METHOD_NAMES], 2):
+            if m.lower() in {f["name"].lower() for f in pkg["funcs"] if f["recv"] and f["recv"][0] == n}:
+                continue
+            f = gen_func(rng, m, [n, rng.random() < 0.3, ""], None)
+            f["params"] = [g for g in f["params"] if g["ty"] in ("string", "int", "bool")]
+            f["file"] = 0
+            pkg["funcs"].append(f)
+    for n in helper_names:
+        pkg["helpers"].append({"kind": rng.choice(["func", "var", "const", "type"]), "name": n, "file": 0, "bare": True})
+    return pkg
+
+
+def pack_names(rng, names, per=8):
+    """packages of functions and namespace types named after the candidates (no two names equal up to case in one package)"""
+    names = sorted(set(n for n in names if n not in ("Default", "Aliases", "Local", "Ctx", "Duration", "Context_")))
+    rng.shuffle(names)
+    pkgs, i = [], 0
+    while i < len(names):
+        chunk, seen = [], set()
+        while i < len(names) and len(chunk) < per:
+            if names[i].lower() not in seen:
+                seen.add(names[i].lower())
+                chunk.append(names[i])
+            i += 1
+        k = max(1, len(chunk) // 3)
+        pkgs.append(gen_named(rng, chunk[k:], chunk[:k]))
+        pkgs.append(gen_named(rng, chunk[:k], chunk[k:k + 3]))
+    return pkgs
+
+
 MG_VARIANTS = ["renamed-first", "renamed-all", "twice", "dot", "othermg", "alias-of-ns", "local-mg-ident"]
 
 
